@@ -11,7 +11,7 @@ checks/c17.py; the lemmas below are the step facts it rests on.
 namespace Nun
 
 /-- a failed `use-db` (unknown database or wrong token) changes no counter and no binding -/
-theorem C17_failed_usedb_noop (fuel : Nat) (n : Node) (sid : Sid) (token name : Bytes) (user : Option Bytes)
+theorem C17_failed_usedb_noop (fuel : Node → Sid → Bytes → Node × Out) (n : Node) (sid : Sid) (token name : Bytes) (user : Option Bytes)
     (he : (n.processObj fuel sid (.useDb token name user)).2.1.isError = true) :
     (n.processObj fuel sid (.useDb token name user)).1 = n :=
   C09_failed_usedb_keeps_selection fuel n sid token name user he
